@@ -40,13 +40,12 @@ def direct_effects(ctx, f, nodes=None):
                         except Exception:
                             pass
                         if isinstance(n.value, ast.IfExp):
-                            vals = []
+                            # one effect per alternative, as for `if c: x.cardinality = A else: x.cardinality = B`
                             for arm in (n.value.body, n.value.orelse):
                                 try:
-                                    vals.append(ctx.p.fold(f.module, arm))
+                                    out.add(("CARD", str(ctx.p.fold(f.module, arm))))
                                 except Exception:
-                                    vals.append("?")
-                            out.add(("CARD", "/".join(sorted(map(str, vals)))))
+                                    out.add(("CARD", "?unknown"))
                         else:
                             out.add(("CARD", str(v)))
                     elif t.attr == "probability":
@@ -162,12 +161,34 @@ def arms_of_test(f, owner, test):
                 idx = parent_block.index(owner)
                 for st in parent_block[idx + 1:]:
                     rest.extend(ast.walk(st))
-            # guard clause: the arm that does not exit continues with the rest of the block
-            if _terminates(owner.body) and not _terminates(owner.orelse):
+            # guard clause: the arm that does not exit continues with the rest of the block.  `if a and b: return x` is the
+            # one-statement form of `if a: if b: return x`, whose outer arm does not end the block: both read the same way
+            conj = isinstance(owner.test, ast.BoolOp) and isinstance(owner.test.op, ast.And) and len(owner.test.values) > 1
+            if conj and not owner.orelse:
+                pass
+            elif _terminates(owner.body) and not _terminates(owner.orelse):
                 b = b + rest
             elif _terminates(owner.orelse) and not _terminates(owner.body):
                 a = a + rest
     return a, b
+
+
+def _assigned_alternatives(ctx, f, owner):
+    """`x.cardinality = A if test else B`: the conditional expression chooses between two assignments (the same effects as the
+    statement form `if test: x.cardinality = A else: x.cardinality = B`)."""
+    if not isinstance(owner, ast.IfExp):
+        return None
+    for n in walk_own(f.node):
+        if isinstance(n, ast.Assign) and n.value is owner and any(isinstance(t, ast.Attribute) and not is_self_attr(t) and t.attr == "cardinality"
+                                                                  for t in n.targets):
+            out = []
+            for arm in (owner.body, owner.orelse):
+                try:
+                    out.append(str(ctx.p.fold(f.module, arm)))
+                except Exception:
+                    out.append("?unknown")
+            return out
+    return None
 
 
 def _enclosing_block(root, stmt):
@@ -196,8 +217,11 @@ class OptionInfluence:
             built = [self._constructed(x) for x in arms]
             selection = bool(built[0]) and bool(built[1]) and built[0] != built[1]
             per_arm = []
-            for nodes in arms:
+            arm_values = _assigned_alternatives(ctx, f, owner)
+            for i_arm, nodes in enumerate(arms):
                 eff = {(k, d, f.short) for k, d in direct_effects(ctx, f, nodes)}
+                if arm_values is not None:
+                    eff.add(("CARD", arm_values[i_arm], f.short))
                 callees = index.callees_of_nodes(f, nodes, class_methods=selection)
                 teff, seen = index.transitive(callees)
                 per_arm.append(eff | teff)
